@@ -38,6 +38,12 @@ def from_pil(img):
             alpha[t] = 0
         a = alpha[idx]
         return from_u8(np.dstack([rgb, a]))
+    if img.mode == 'RGB' and isinstance(img.info.get('transparency'), tuple):
+        # RGB with one colour declared transparent (tRNS chunk)
+        rgb = np.asarray(img)
+        key = np.array(img.info['transparency'][:3], dtype=np.uint8)
+        a = np.where((rgb == key).all(axis=2), 0, 255).astype(np.uint8)
+        return from_u8(np.dstack([rgb, a]))
     if img.mode not in ('RGB', 'RGBA'):
         img = img.convert('RGBA' if img.mode in ('LA', 'PA') or 'transparency' in img.info else 'RGB')
     return from_u8(np.asarray(img))
